@@ -27,7 +27,12 @@ Inductive step :=
 | Dl (i : nat) (res : N) (wcls : list (N * N)) (o : obs)
 | Cr (i : nat) (k : nat) (js : list nat) (o : obs)
 | Gw (wcls : list (N * N))
-| Gn (k : nat) (o : obs).
+| Gn (k : nat) (o : obs)
+| Fn (i : nat)                                   (* newBlockChainFork on block i of the local chain *)
+| Fa (i : nat) (ok : bool)                       (* addBlockOnFork block i: accepted? *)
+| Ft (done : bool) (wcls : list (N * N)) (o : obs)   (* one triggerOnChain call: returned value, writes *)
+| Cf (k : nat) (js : list nat) (o : obs)         (* crash inside the next triggerOnChain call *)
+| Fd.                                            (* destroy *)
 
 Definition res_code (r : result) : N :=
   match r with RSucc => 0 | RExisted => 1 | RQnLess => 2 | RNoPre => 3 | RFailed => 4 | RFuel => 99 end.
@@ -95,29 +100,43 @@ Definition deliver_writes (v : vol) (s : st) (b : block) : list write :=
   | Some _ => if is_some (byHash s (hash b)) then [] else fst (fst (fst (add_writes FUEL (fst v) (snd v) s b)))
   end.
 
-Fixpoint steps_ok (blocks : list block) (fut : vol) (s : st) (l : list step) : bool :=
+Definition fork0 : fork := fork_new dummy.
+
+Fixpoint steps_ok (blocks : list block) (fut : vol) (fk : fork) (s : st) (l : list step) : bool :=
   match l with
   | [] => true
+  | Fn i :: r => steps_ok blocks fut (fork_new (nth i blocks dummy)) s r
+  | Fa i ok :: r =>
+      let '(fk', a) := fork_add fk (nth i blocks dummy) in
+      Bool.eqb a ok && steps_ok blocks fut fk' s r
+  | Ft done wcls o :: r =>
+      let '(ws, ok, fk', v', _) := fork_trigger FUEL fut s fk in
+      Bool.eqb ok done && list_eqb pair_eqb (classes ws) wcls && obs_ok blocks (apply ws s) o
+      && steps_ok blocks v' fk' (apply ws s) r
+  | Cf k js o :: r =>
+      let '(ws, _, _, _, _) := fork_trigger FUEL fut s fk in
+      obs_ok blocks (recover (faults js (crash k ws s))) o && steps_ok blocks fut fk s r
+  | Fd :: r => steps_ok blocks fut fork0 s r
   | Dl i res wcls o :: r =>
       let b := nth i blocks dummy in
       let ws := deliver_writes fut s b in
       let '(s', fut', rr) := deliver FUEL fut s b in
       (res_code rr =? res) && list_eqb pair_eqb (classes ws) wcls && obs_ok blocks s' o
-      && steps_ok blocks fut' s' r
+      && steps_ok blocks fut' fk s' r
   | Cr i k js o :: r =>
       let b := nth i blocks dummy in
       let ws := deliver_writes fut s b in
-      obs_ok blocks (recover (faults js (crash k ws s))) o && steps_ok blocks fut s r
+      obs_ok blocks (recover (faults js (crash k ws s))) o && steps_ok blocks fut fk s r
   | Gw wcls :: r =>
-      list_eqb pair_eqb (classes (genesis_writes (nth 0 blocks dummy))) wcls && steps_ok blocks fut s r
+      list_eqb pair_eqb (classes (genesis_writes (nth 0 blocks dummy))) wcls && steps_ok blocks fut fk s r
   | Gn k o :: r =>
       let g := nth 0 blocks dummy in
-      obs_ok blocks (boot g (crash k (genesis_writes g) st0)) o && steps_ok blocks fut s r
+      obs_ok blocks (boot g (crash k (genesis_writes g) st0)) o && steps_ok blocks fut fk s r
   end.
 
 Definition check (c : list block * list step) : bool :=
   let '(blocks, l) := c in
   match blocks with
-  | g :: _ => steps_ok blocks (fun _ => None, fun _ => false) (st_of [g]) l
+  | g :: _ => steps_ok blocks (fun _ => None, []) fork0 (st_of [g]) l
   | [] => false
   end.
